@@ -21,6 +21,7 @@ ITEMS = [
  ('C09_backend_buffers', 'process_request',
   'the read buffer handed to the backend holds at least the requested block and lies behind the header inside the block (unit * room <= block size - frame structure - header); '
   'a read that does not fit is answered with ETXOVERFLOW carrying the buffer size; a write hands over exactly the received payload (whose length is the announced block, C06/C07)'),
+ ('C09_reception_terminates', 'recv_total', 'a reception terminates on every finite input, on both transports (never a hang: the model never runs out of fuel)'),
  ('C09_session_balance', 'serve_balanced', 'after every round of any session history: allocations = releases'),
 ]
 EXTRA = '''
